@@ -76,6 +76,35 @@ Proof.
   destruct b; [reflexivity|discriminate].
 Qed.
 
+Lemma relay_identity : forall n frames,
+  snd (relay n frames) = frames /\ length (fst (relay n frames)) = n /\
+  Forall (fun v => v = frames) (fst (relay n frames)).
+Proof.
+  induction n as [|n IH]; intros frames; cbn [relay].
+  - repeat split. constructor.
+  - assert (Hm : map transit_forward frames = frames) by (unfold transit_forward; apply map_id).
+    rewrite Hm. destruct (IH frames) as (H1 & H2 & H3).
+    destruct (relay n frames) as [views out]. cbn in *. repeat split; [assumption|now rewrite H2|].
+    constructor; [reflexivity|assumption].
+Qed.
+
+(** Along a path with any number of transits every transit sees exactly the
+    sender's frames, the exit receives them unchanged, and all of them are
+    opaque. *)
+Theorem stream_views_any_path : forall n pa k ctr blocks eofd o,
+  run pa k ctr blocks eofd = Some o ->
+  snd (relay n (o_frames o)) = o_frames o /\
+  length (fst (relay n (o_frames o))) = n /\
+  Forall (Forall (fun f => opaque k f /\ readable f = [])) (fst (relay n (o_frames o))).
+Proof.
+  intros n pa k ctr blocks eofd o H.
+  destruct (relay_identity n (o_frames o)) as (H1 & H2 & H3).
+  split; [assumption|]. split; [assumption|].
+  eapply Forall_impl; [|exact H3]. intros v ->.
+  pose proof (stream_frames_opaque pa k ctr blocks eofd o H) as Ho.
+  eapply Forall_impl; [|exact Ho]. intros f Hf. split; [assumption|exact (opaque_unreadable k f Hf)].
+Qed.
+
 (** * Datagram tunnels *)
 
 Definition all_sealed (k : key) (views : list (list seen)) : Prop :=
